@@ -26,6 +26,11 @@ emmet.markup_abbreviation / stylesheet_abbreviation written out several times wi
 stringify_stylesheet: "op" parse / stringify in the history format).  Reordered calls go through the ties as equal
 copies; histories with two-step calls are judged by the oracle only (the history state machine has expand steps only).
 
+One more comes from harness/history_defaults.py: DEFAULT VALUES of user stylesheet snippets at the numeric boundaries
+(zero in every spelling, zero with a unit alias / a unit, non-zero numbers with and without alias, next to keywords,
+colours, fields, function calls), the snippet named without a value through ONE cache dict shared by configurations with
+equal snippets and differing number-writing options (stylesheet.unitAliases / intUnit / floatUnit / unitless / shortHex).
+
 C08_SKIP_CORPUS=1 leaves the committed corpus out (sanity runs that must find a defect from generated input)."""
 import glob
 import json
@@ -38,6 +43,7 @@ import history_util as hu
 import history_nested as hn
 import history_classes as hc
 import history_routes as hr
+import history_defaults as hd
 
 KEYS_SUPPORT = ('objects-kept-alive',)
 
@@ -348,6 +354,8 @@ def css_tie(ctx, hs, rs, limit):
     fn = fn[:max(20, limit // 8)]
     # and one for the histories with reordered equal configurations / names that differ only in letter case
     fn += ([k for k in range(len(hs)) if hs[k][0] == 'order-pair'][::4] + [k for k in range(len(hs)) if hs[k][0] == 'order-random'])[:max(16, limit // 10)]
+    # and one for the default values at the numeric boundaries under differing number-writing options
+    fn += ([k for k in range(len(hs)) if hs[k][0] == 'defaults-pair'][::5] + [k for k in range(len(hs)) if hs[k][0] == 'defaults-random'])[:max(16, limit // 10)]
     order = fn + [k for k in order if k not in set(fn)]
     for k in order:
         (label, h), r = hs[k], rs[k]
@@ -391,6 +399,8 @@ def css_tie(ctx, hs, rs, limit):
             stats['histories'] += 1
             if hs[k][0].startswith('fnargs'):
                 stats['histories_with_function_call_values'] = stats.get('histories_with_function_call_values', 0) + 1
+            if hs[k][0].startswith('defaults'):
+                stats['histories_with_boundary_default_values'] = stats.get('histories_with_boundary_default_values', 0) + 1
             if hs[k][0].startswith('order'):
                 stats['histories_with_reordered_configurations_or_case_variant_names'] = stats.get('histories_with_reordered_configurations_or_case_variant_names', 0) + 1
             dd = []
@@ -475,6 +485,14 @@ def cover_history(ctx, h, r):
         if cv and any(v for v in shared_cache_sets.values()):
             ctx.cover('reordered_case_variant_table_sharing_a_cache_dict')
         nt = nt or cv
+    shapes, shared_dv = hd.default_value_shapes(h)
+    for sh in shapes:
+        ctx.cover('snippet_default_value_holds_' + sh)
+        if shared_dv:
+            ctx.cover('snippet_default_value_holds_%s_cache_shared_by_differing_number_options' % sh)
+    for c, rec in zip(seq, r['history'].get('calls', [])):
+        if rec['kind'] == 'stylesheet' and hd.names_default(h, c):
+            ctx.cover('stylesheet_call_writes_a_snippet_default_value_%s' % rec['out'][0])
     if h.get('globals'):
         nsyn, both = hc.global_layering(h)
         ctx.cover('shared_global_config_passed_with_%d_syntaxes' % min(nsyn, 4))
@@ -544,6 +562,10 @@ def gen(ctx):
     if not os.environ.get('C08_ONLY_RANDOM'):
         hs += [('order-pair', h) for h in hr.order_pair_histories()]
     hs += [('order-random', hr.rand_order_history(rng)) for _ in range(30 if ctx.tier == 'quick' else 900)]
+    # default values of user stylesheet snippets at the numeric boundaries, one cache dict, differing number-writing options
+    if not os.environ.get('C08_ONLY_RANDOM'):
+        hs += [('defaults-pair', h) for h in hd.default_value_pair_histories()]
+    hs += [('defaults-random', hd.rand_default_value_history(rng)) for _ in range(40 if ctx.tier == 'quick' else 1200)]
     # the two-step route: one caller-owned parsed tree written out several times
     if not os.environ.get('C08_ONLY_RANDOM'):
         hs += [('twostep-pair', h) for h in hr.two_step_pair_histories()]
@@ -601,7 +623,17 @@ def run(ctx):
         'haml, slim and the options that rewrite names or values on output (markup.attributes, markup.valuePrefix, jsx.enabled, '
         'tag / attribute case, quotes, compact booleans, self-closing style, reversed attributes, comments, BEM, tabstop fields, '
         'unformatted output); stylesheet trees (numbers, units, colours, gradients, function calls, user snippets, !important) '
-        '(one fixed family per configuration + random histories of 3..8 calls).  The calls with a global '
+        '(one fixed family per configuration + random histories of 3..8 calls); DEFAULT VALUES OF USER STYLESHEET SNIPPETS AT '
+        'THE NUMERIC BOUNDARIES (harness/history_defaults.py): default values made of zero in every spelling (0, 0.0, -0, 00, .0), '
+        'zero with a unit alias (0p, 0x, 0e, 0r, 0.0p, -0x), zero with a unit (0px, 0%), non-zero integers / floats / negatives / '
+        'fractions without unit, with a unit alias, with a unit, next to keywords, colours, fields with numeric placeholders, '
+        'strings and function calls with numeric arguments, as one token, several space-separated tokens, comma lists and | '
+        'alternatives; the snippet named WITHOUT a value (the default is written), with !, in + chains and with a typed value at '
+        'the same boundaries, through ONE cache dict shared by configurations with equal snippets and differing '
+        'stylesheet.unitAliases / intUnit / floatUnit / unitless / shortHex / output.field (same dict, equal copy, Config '
+        'object, no cache; per default value every option set of a fixed ring of 4 is the first caller of the cache in some '
+        'history + random tables, option sets and histories of 1..6 calls; a fixed share goes through the stylesheet '
+        'pipeline model).  The calls with a global '
         'configuration are judged by the oracle and the state tie only (the pipeline models take a resolved configuration '
         'without global layers); a fixed share of the function-call histories and of the reordered / case-variant histories goes '
         'through the stylesheet pipeline model (a reordered call is an equal copy to the models); histories with two-step calls '
